@@ -14,7 +14,8 @@
    names on every construction), which is how the model selects. *)
 From Coq Require Import ZArith List Bool.
 From Batchie Require Import Lib.Sexp Generated.Consts Model.Encode Model.Screen Model.Reveal Model.Holdout
-  Proofs.C03Base Proofs.C03Screen Proofs.C12Reveal Proofs.C12Counters Proofs.C03Frozen Proofs.C12Defined Proofs.C03Witness Proofs.C12Examples.
+  Proofs.C03Base Proofs.C03Screen Proofs.C12Reveal Proofs.C12Counters Proofs.C03Frozen Proofs.C12Defined Proofs.C03Witness Proofs.C12Examples
+  Generated.SrcReveal Proofs.C12Source.
 Import ListNotations.
 Open Scope Z_scope.
 
@@ -217,6 +218,74 @@ Theorem C12_save_load_exact : forall s s',
 Proof. exact save_load_exact. Qed.
 Print Assumptions C12_save_load_exact.
 
+(* ---- the model IS the source ----
+   Generated/SrcReveal.v holds the translations (harness/py2gal.py, configurations C12_* of harness/src_functions.py) of
+   the WHOLE functions batchie.retrospective.reveal_plates / mask_screen / unmask_screen and batchie.data.Screen.set_observed,
+   and of the two statement runs of Screen.__init__ that decide observations / observation_mask, regenerated from the
+   source on every run.  A Screen object is a [screen]; its array attributes are the columns of its rows (col_*, end of
+   Model/Reveal.v); Screen(...) is the model's constructor applied to the keyword arguments THE CALL SITE passes (py_screen:
+   an argument that is not passed is None), so that the call sites pass observation_mask = old | reveal_mask / zeros / ones
+   and both id mappings is read from the source, not assumed.  Every theorem above about reveal_plates v / mask_screen v /
+   unmask_screen v holds for all variants v, in particular for the source's. *)
+Theorem C12_model_is_source_reveal_plates : forall (s : screen) (ids : list Z),
+  src_reveal_plates s ids = reveal_plates (carry_mappings true) s ids.
+Proof. exact src_reveal_plates_is_model. Qed.
+Print Assumptions C12_model_is_source_reveal_plates.
+
+Theorem C12_model_is_source_mask_screen : forall s : screen,
+  src_mask_screen s = mask_screen (carry_mappings true) s.
+Proof. exact src_mask_screen_is_model. Qed.
+Print Assumptions C12_model_is_source_mask_screen.
+
+Theorem C12_model_is_source_unmask_screen : forall s : screen,
+  src_unmask_screen s = unmask_screen (carry_mappings true) s.
+Proof. exact src_unmask_screen_is_model. Qed.
+Print Assumptions C12_model_is_source_unmask_screen.
+
+(* set_observed: the translated method acts on the two arrays it writes (self._observations, self._observation_mask);
+   the model's result is the screen with these two columns replaced (set_cols) - nothing else is assigned by the method *)
+Theorem C12_model_is_source_set_observed : forall (s : screen) (sel : list bool) (vals : list Z),
+  set_observed s sel vals
+  = dor p <- src_set_observed (col_obs s) (col_mask s) sel vals; Ok (set_cols s (fst p) (snd p)).
+Proof. exact set_observed_is_src. Qed.
+Print Assumptions C12_model_is_source_set_observed.
+
+(* Screen.__init__, statement run 1 (observations None / mask None handling) on the arrays of a constructor call with
+   observations given iff og and mask given iff mg: the model's Err 7, or the observation and mask columns of the rows
+   the model's constructor stores (norm_rows = the `rows` mk_screen binds, Proofs/C03Screen.mk_screen_unfold) *)
+Theorem C12_model_is_source_init_observations : forall (rows : list row) (og mg : bool),
+  src_init_observations (if og then Some (map r_obs rows) else None) (if mg then Some (map r_mask rows) else None)
+                        (Z.of_nat (length rows))
+  = if negb og && mg then Err 7
+    else Ok (map r_obs (norm_rows og mg rows), map r_mask (norm_rows og mg rows)).
+Proof. exact src_init_observations_spec. Qed.
+Print Assumptions C12_model_is_source_init_observations.
+
+(* statement run 2 (the loop over np.unique(plate_names)) IS the model's plate_uniform *)
+Theorem C12_model_is_source_init_plate_check : forall rows : list row,
+  src_init_plate_check (map r_plate rows) (map r_mask rows) = if plate_uniform rows then Ok tt else Err 2.
+Proof. exact src_init_plate_check_spec. Qed.
+Print Assumptions C12_model_is_source_init_plate_check.
+
+(* together: the model's constructor, whatever the call passes, refuses ragged rows, runs the translated mask rules, and
+   is then the constructor on the rows they leave with observations and mask given *)
+Theorem C12_model_is_source_init_mask_rules : forall rows a c tm sm og mg,
+  mk_screen rows a c tm sm og mg
+  = if negb (arity_ok a rows) then Err 1
+    else dor rows' <- src_mask_rules rows og mg; mk_screen rows' a c tm sm true true.
+Proof. exact mk_screen_is_src_mask_rules. Qed.
+Print Assumptions C12_model_is_source_init_mask_rules.
+
+(* the arrays the translated reveal_plates hands to numpy / zips into rows have one entry per row on every screen
+   whose plate ids are encoded (every constructed screen): the case in which np_or / select / zip_rows would stop at
+   a shorter list, where numpy raises, does not arise *)
+Theorem C12_source_arrays_aligned : forall s ids,
+  plates_encoded s ->
+  length (np_isin (s_pids s) ids) = length (s_rows s) /\ length (col_obs s) = length (s_rows s) /\
+  length (col_mask s) = length (s_rows s) /\ length (np_or (col_mask s) (np_isin (s_pids s) ids)) = length (s_rows s).
+Proof. exact source_arrays_aligned. Qed.
+Print Assumptions C12_source_arrays_aligned.
+
 (* ---- non-vacuity (vm_compute).  w_parent (Proofs/C03Witness.v): plates p0 (unobserved, values 0.5 0.25),
    p1, p2 (observed); plate ids 0 1 2.  view r = (masks, n_unobserved_plates) of an Ok result; zrow p obs = an
    unobserved row on plate p with stored bits obs (Proofs/C12Examples.v). ---- *)
@@ -261,4 +330,18 @@ Proof. vm_compute. reflexivity. Qed.
 Example C12_plate_ids_per_screen_example :
   s_pids w_parent = [0; 0; 1; 1; 2; 2] /\ map r_plate (s_rows w_train) = map r_plate (skipn 2 (s_rows w_parent)) /\
   s_pids w_train = [0; 0; 1; 1].
+Proof. vm_compute. repeat split; reflexivity. Qed.
+
+(* the translated functions run: the reveal of C12_reveal_example, mask / unmask, and a partial-plate set_observed *)
+Example C12_source_example :
+  view (src_reveal_plates w_parent [0; 2; 0; 99]) = Some ([true; true; true; true; true; true], 0%nat) /\
+  src_reveal_plates w_parent [] = Err 8 /\
+  view (src_mask_screen w_parent) = Some ([false; false; false; false; false; false], 3%nat) /\
+  view (src_unmask_screen w_parent) = Some ([true; true; true; true; true; true], 0%nat) /\
+  (dor p <- src_set_observed (col_obs w_parent) (col_mask w_parent) [true; false; false; false; false; false] [4607182418800017408];
+   Ok (firstn 2 (fst p), firstn 2 (snd p))) = Ok ([4607182418800017408; 4598175219545276416], [true; false]) /\
+  src_set_observed (col_obs w_parent) (col_mask w_parent) [true] [0] = Err 10 /\
+  src_init_observations None (Some [true]) 1 = Err 7 /\
+  src_init_observations (Some [5]) None 1 = Ok ([5], [true]) /\
+  src_init_plate_check [[48]; [49]; [48]] [true; false; false] = Err 2.
 Proof. vm_compute. repeat split; reflexivity. Qed.
